@@ -131,6 +131,8 @@ pub enum End {
     Finished,
     Violation,
     StepCap,
+    /// nobody can run, and the model declared every parked thread to be waiting legitimately (`Model::stuck_ok`)
+    Stuck,
 }
 
 pub trait Model: Sync {
@@ -145,6 +147,12 @@ pub trait Model: Sync {
     /// violation kind for a panic raised in thread `tid` (lets the harness name the call in progress)
     fn panic_kind(&self, _tid: usize) -> String {
         "panic".into()
+    }
+    /// called when no thread can run and `blocked` are parked in futex_wait: `true` = each of them waits for
+    /// something that legitimately never comes in this program (e.g. a lock held for ever by a finished thread);
+    /// the execution then ends as `End::Stuck` instead of a deadlock violation.  Default: every such end is a deadlock.
+    fn stuck_ok(&self, _blocked: &[usize]) -> bool {
+        false
     }
 }
 
@@ -966,6 +974,11 @@ fn run_execution(model: &dyn Model, pool: &mut Pool, e: &mut Exec) -> (End, Stri
                 continue;
             }
             if spinners.is_empty() {
+                let ids: Vec<usize> = (0..n).filter(|&t| matches!(e.th[t].status, Status::Blocked(_))).collect();
+                if model.stuck_ok(&ids) {
+                    end = End::Stuck;
+                    break;
+                }
                 flag_violation("deadlock", format!("no thread can run: {} — lost wake-up / deadlock", blocked.join(", ")));
             } else {
                 flag_violation(
@@ -1145,7 +1158,7 @@ pub fn explore(model: &dyn Model, cfg: &Config) -> Stats {
                                 stop.store(true, StdOrd::Relaxed);
                             }
                         }
-                        End::Finished => {}
+                        End::Finished | End::Stuck => {}
                     }
                     // children: every later choice, every alternative within budget
                     // (an execution that ran into the step horizon is not expanded: the run is
